@@ -47,6 +47,8 @@ def kestrel(args, env=None, stdin=b"", timeout=60, cwd=None, stdout_path=None, s
     if raw_env:
         e = {os.fsencode(k): os.fsencode(v) for k, v in e.items()}
         e.update(raw_env)
+    if "/dev/full" in (stdout_path, stderr_path):
+        full_device()                 # raises when /dev/full is not the device it should be
     fin = open(stdin_path, "rb") if stdin_path else None
     fout = open(stdout_path, "wb") if stdout_path else None
     if stdout_closed:
@@ -114,6 +116,37 @@ def kestrel(args, env=None, stdin=b"", timeout=60, cwd=None, stdout_path=None, s
             fin.close()
         if fout:
             fout.close()
+
+
+def full_device(directory=None):
+    """Path of a character device on which every write fails with ENOSPC.  Inside `directory` a private node (major 1,
+    minor 7) is made where the file system allows it, so that code under test that removes or replaces its output path
+    cannot damage the machine's /dev/full; /dev/full itself is checked to BE that device (a regular file of that name
+    would silently accept everything)."""
+    import stat
+    if directory is not None:
+        p = os.path.join(directory, "full-device")
+        try:
+            if not os.path.exists(p):
+                os.mknod(p, 0o666 | stat.S_IFCHR, os.makedev(1, 7))
+            fd = os.open(p, os.O_WRONLY)
+            try:
+                os.write(fd, b"x")
+                ok = False
+            except OSError:
+                ok = True
+            finally:
+                os.close(fd)
+            if ok:
+                return p
+            os.unlink(p)
+        except OSError:
+            pass
+    st = os.stat("/dev/full")
+    if not stat.S_ISCHR(st.st_mode) or os.major(st.st_rdev) != 1 or os.minor(st.st_rdev) != 7:
+        from vlib import ToolError
+        raise ToolError("/dev/full is not the full device (mode %o): restore it with `rm -f /dev/full; mknod -m 666 /dev/full c 1 7`" % st.st_mode)
+    return "/dev/full"
 
 
 class Sandbox:
